@@ -446,7 +446,7 @@ def rule_ignore_filter(m, rid):
 def rule_semicolon(m, rid):
     r = RuleResult(rid, "';' never splits a literal: it is applied to the tokenised line, every part has the replace map undone and "
                         "label then construct name re-extracted")
-    r.floor = 4
+    r.floor = 5
     nx = reader_func(m, "_next")
     splits = [c for c in A.calls(nx.node) if isinstance(c.func, ast.Attribute) and c.func.attr == "split" and c.args and A.const(c.args[0]) == ";"]
     if not splits:
@@ -473,6 +473,29 @@ def rule_semicolon(m, rid):
     if not guard_ok:
         r.fail("_next|split-guard", "_next decides whether a line contains ';' on something other than the tokenised line "
                "(item.get_line()): a ';' inside quotes or a directive triggers the split", m.loc(nx))
+    # directive items are Lines too: the guard must exclude them (a ';' is ordinary text of a '#define')
+    r.instances += 1
+    line_k = m.key("Line", RF)
+    special = sorted(c["name"] for k, c in m.classes.items() if c["module"] == RF and k != line_k and m.issub(k, line_k)
+                     and not c["name"].startswith("SyntaxError"))
+    excluded = set()
+    exact = False
+    for n in A.body_nodes(nx.node):
+        if isinstance(n, ast.If) and any(isinstance(x, ast.Compare) and A.const(x.left) == ";" for x in ast.walk(n.test)):
+            conj = n.test.values if isinstance(n.test, ast.BoolOp) and isinstance(n.test.op, ast.And) else [n.test]
+            for c in conj:
+                if isinstance(c, ast.UnaryOp) and isinstance(c.op, ast.Not) and isinstance(c.operand, ast.Call) \
+                        and A.dotted(c.operand.func) == "isinstance" and len(c.operand.args) == 2:
+                    t = c.operand.args[1]
+                    excluded |= {A.text(e) for e in (t.elts if isinstance(t, ast.Tuple) else [t])}
+                if A.text(c) in ("type(item) is Line", "type(item) == Line"):
+                    exact = True
+    missing = [k for k in special if k not in excluded] if not exact else []
+    r.ob(not missing, "_next: the split guard excludes the non-statement Line classes %s" % special)
+    if missing:
+        r.fail("_next|splits-directive|%s" % ",".join(missing), "_next applies the ';' statement separator to %s items as well (they derive from Line "
+               "and the guard does not exclude them): '#define A x; y' is delivered as a directive followed by the statement 'y'"
+               % "/".join(missing), m.loc(nx))
     # every Line built from a part: apply_map + extract_label before extract_construct_name
     r.instances += 1
     order = []
